@@ -137,20 +137,54 @@ Section Obs.
     || negb (proj_eqb (ob_src m) (ob_src o))
     || (if par && negb (is_none (ob_exn m)) then false else negb (proj_eqb (ob_dst m) (ob_dst o))).
 
+  (* a pooled project-level run that raised: the project document is synchronised before the pool starts;
+     every job entry is one of the outcomes some schedule produces — not reached, processed, or (shared
+     ByKey state, unless repaired) processed with a spurious DocumentSyncConflict; the reported exception is
+     that of the sequential loop, or DocumentSyncConflict when some job has a document conflict *)
+  Definition pooled_jobs (cf : cfg) (o : opts) (src : project) : dir :=
+    filter (fun kn => job_selected o (fst kn)) (p_ws src).
+
+  Definition pooled_entry_ok (cf : cfg) (o : opts) (src dst : project) (ws' : dir) (id : str) : bool :=
+    let obs := alookup id ws' in
+    node_eqb (alookup id (p_ws dst)) obs
+    || existsb (fun kn => str_eqb (fst kn) id
+                          && (node_eqb (alookup id (fst (clone_or_sync frepr cf o kn (p_ws dst)))) obs
+                              || (negb (fix_shared cf)
+                                  && node_eqb (alookup id (fst (clone_or_sync_spurious frepr cf o kn (p_ws dst)))) obs)))
+               (pooled_jobs cf o src).
+
+  Definition pooled_differs (cf : cfg) (o : opts) (en : entry) (src dst : project) (m ob : sobs) : bool :=
+    match en with
+    | E_project =>
+        negb (ob_rest_ok ob)
+        || negb (proj_eqb (ob_src m) (ob_src ob))
+        || negb (dir_eqb (p_top (ob_dst m)) (p_top (ob_dst ob)))
+        || negb (forallb (pooled_entry_ok cf o src dst (p_ws (ob_dst ob)))
+                         (map fst (p_ws dst) ++ map fst (p_ws (ob_dst ob))))
+        || negb (exn_opt_eqb (ob_exn m) (ob_exn ob)
+                 || (negb (fix_shared cf)
+                     && exn_opt_eqb (ob_exn ob) (Some EDocumentSyncConflict)
+                     && existsb (fun kn => exn_opt_eqb (snd (clone_or_sync frepr cf o kn (p_ws dst)))
+                                                       (Some EDocumentSyncConflict)) (pooled_jobs cf o src)))
+    | _ => true
+    end.
+
+  Definition call_differs (par : bool) (o : opts) (en : entry) (src dst : project) (ob : sobs) : bool :=
+    let m := model_call cfg_current o en src dst in
+    if par && negb (is_none (ob_exn m)) then pooled_differs cfg_current o en src dst m ob
+    else obs_differs false m ob.
+
   Definition mismatch_sync (c : scase) : bool :=
     let i := c_in c in
     let par := i_parallel i in
-    obs_differs par (model_call cfg_current (i_opts i) (i_entry i) (i_src i) (i_dst i)) (c_obs c)
+    call_differs par (i_opts i) (i_entry i) (i_src i) (i_dst i) (c_obs c)
     || negb (Bool.eqb (wants_again i (c_obs c)) (negb (is_none (c_again c))))
     || match c_again c with
-       | Some o2 => obs_differs par (model_call cfg_current (i_opts i) (i_entry i)
-                                       (ob_src (c_obs c)) (ob_dst (c_obs c))) o2
+       | Some o2 => call_differs par (i_opts i) (i_entry i) (ob_src (c_obs c)) (ob_dst (c_obs c)) o2
        | None => false
        end
     || match ref_opts i, c_ref c with
-       | Some o, Some r =>
-           obs_differs (par && o_dry_run (i_opts i))
-                       (model_call cfg_current o (i_entry i) (i_src i) (i_dst i)) r
+       | Some o, Some r => call_differs (par && o_dry_run (i_opts i)) o (i_entry i) (i_src i) (i_dst i) r
        | None, None => false
        | _, _ => true
        end.
@@ -173,7 +207,8 @@ Section Obs.
     {| fix_F3 := fix_F3 c || N.eqb k 1; fix_F4 := fix_F4 c || N.eqb k 2; fix_F5 := fix_F5 c || N.eqb k 4;
        fix_F16 := fix_F16 c || N.eqb k 3; fix_root := fix_root c || N.eqb k 7;
        fix_excl := fix_excl c || N.eqb k 5; fix_dryinit := fix_dryinit c || N.eqb k 6;
-       fix_ignore := fix_ignore c || N.eqb k 8; fix_implicit := fix_implicit c || N.eqb k 9 |}.
+       fix_ignore := fix_ignore c || N.eqb k 8; fix_implicit := fix_implicit c || N.eqb k 9;
+       fix_shared := fix_shared c || N.eqb k 10 |}.
   Definition active (k : N) (i : sinput) : bool :=
     negb (scase_obs_eqb (model_case cfg_current i) (model_case (with_fix k) i))
     || (i_parallel i
